@@ -228,7 +228,15 @@ Judge(i, si) ==
          /\ Len(out.prevs) = Len(pages) - 1
          /\ \A k \in DOMAIN out.prevs :
               /\ out.prevs[k].has /\ samePage(NormSeq(b, out.prevs[k].items), pages[k])
-              /\ out.prevs[k].hasNext /\ samePage(NormSeq(b, out.prevs[k].nitems), pages[k + 1])]
+              /\ out.prevs[k].hasNext /\ samePage(NormSeq(b, out.prevs[k].nitems), pages[k + 1])
+         \* the walk back (listings of 3..8 pages): `previous` hop after hop from the last page reaches page n-1, n-2, ..., 1,
+         \* ends there (no previous), and `next` from there is page 2
+         /\ (out.backChecked =>
+               /\ Len(out.back) = Len(pages) - 1
+               /\ out.backEnd
+               /\ \A h \in DOMAIN out.back : out.back[h].has /\ samePage(NormSeq(b, out.back[h].items), pages[Len(pages) - h])
+               /\ out.back[Len(out.back)].hasNext
+               /\ samePage(NormSeq(b, out.back[Len(out.back)].nitems), pages[2]))]
 
 (***************************************************************************)
 (* Named predicates: <<name, applicable, holds>> for read line i             *)
